@@ -1442,6 +1442,9 @@ class QueryBuilder(Selectable, Term):  # type:ignore[misc]
             return ""
         if self._update_table and not self._updates:
             return ""
+        if not self._from and not self._update_table and (self._delete_from or self._joins):
+            # DELETE or JOIN without a FROM item: the builder is still incomplete
+            return ""
 
         has_joins = bool(self._joins)
         has_multiple_from_clauses = 1 < len(self._from)
